@@ -6,7 +6,7 @@
    delivered by ReadMessage are the data messages sent, same types, same bytes, same order. *)
 Require Import WS.Base.Bytes WS.Base.Tape WS.Spec.Frame WS.Spec.WriterSpec WS.Spec.Inflate.
 Require Import WS.Model.Writer WS.Model.Bufio WS.Model.Reader WS.Cases.WriterCase WS.Cases.ReaderCase.
-Require WS.Cases.C02 WS.Cases.C03.
+Require WS.Cases.C02 WS.Cases.C03 WS.Cases.C10.
 
 Definition sent_data (k:wcase) (o:wobs) : list (N * bytes) :=
   flat_map (fun x => if is_data (s_ty x) then [(s_ty x, s_data x)] else []) (a_out (expected_sent k o)).
@@ -93,6 +93,7 @@ Definition judge (t:tape) : tape :=
                 | Some (cl, d) => v_specfail cl d
                 | None =>
                   if negb (accepted_ok false None (combine (wk_ops wk) (wo_res wo))) then v_specfail 141 []
+                  else if negb (C10.deadline_effective 0 0 0 (combine (wk_ops wk) (wo_cnt wo)) (wo_evs wo)) then v_specfail 75 []
                   else if only_read_message (k_ops rk) && negb (msgs_eqb (delivered (o_res ro)) (sent_data wk wo))
                   then v_specfail 140 [N.of_nat (length (delivered (o_res ro))); N.of_nat (length (sent_data wk wo))]
                   else
